@@ -18,6 +18,8 @@ pub struct Sess {
     pub cur: Option<Pos>,
     pub log_path: Option<PathBuf>,
     pub inconclusive: Vec<String>,
+    /// an earlier go of this session could not be settled (its search thread was still alive)
+    pub tainted: bool,
 }
 
 #[derive(Clone, Debug)]
@@ -88,7 +90,7 @@ impl Sess {
         if eng.wait_for(|l| l == "uciok", to).is_none() {
             return Err(format!("no uciok within {:?}; transcript: {:?}", to, eng.transcript_text(10)));
         }
-        Ok(Sess { eng, cur: None, log_path, inconclusive: vec![] })
+        Ok(Sess { eng, cur: None, log_path, inconclusive: vec![], tainted: false })
     }
 
     pub fn position(&mut self, hist: &History) {
@@ -139,12 +141,21 @@ impl Sess {
         // little after bestmove. Wait until it has exited (/proc task count back to 1) so that
         // everything it printed is attributed to this go, then use isready as the boundary: the
         // pipe is FIFO, so once readyok is read all of that thread's output has been read too.
-        let t_end = Instant::now() + Duration::from_secs(3);
+        let t_end = Instant::now() + Duration::from_secs(6);
         while self.eng.thread_count() > 1 && Instant::now() < t_end {
             self.eng.drain(Duration::from_micros(300));
         }
+        let mut unsettled = self.tainted;
         if self.eng.thread_count() > 1 {
-            self.inconclusive.push("search thread still alive 3 s after bestmove".into());
+            // a search thread that outlives its go by seconds (a machine loaded several times over,
+            // a tracer that is starved - or a search that really does not stop): whatever it prints
+            // from now on cannot be attributed to a go any more, so the info lines of this go and of
+            // the following ones are not handed to the line checkers until a settle succeeds again
+            self.inconclusive.push("search thread still alive 6 s after bestmove".into());
+            unsettled = true;
+            self.tainted = true;
+        } else {
+            self.tainted = false;
         }
         self.eng.drain(Duration::from_millis(1));
         let ok = self.isready(boundary_timeout);
@@ -160,7 +171,7 @@ impl Sess {
             }
         }
         g.n_bestmove_lines = n;
-        g.info_lines = infos;
+        g.info_lines = if unsettled { Vec::new() } else { infos };
         ok
     }
 
